@@ -5,6 +5,7 @@ import (
 	"encoding/hex"
 	"image/color"
 	"strings"
+	"sync"
 
 	"github.com/boombuler/barcode"
 	"github.com/boombuler/barcode/aztec"
@@ -112,7 +113,48 @@ var testSchemes = map[string]barcode.ColorScheme{
 	"inv":  {Model: color.Gray16Model, Background: color.Black, Foreground: color.White},
 }
 
+// barcodes kept alive across case lines (hold / recheck): a returned barcode must be a snapshot,
+// whatever is encoded afterwards
+var held []barcode.Barcode
+var heldMu sync.Mutex
+
 func init() {
+	// hold <encoder args...> : encode, keep the barcode, print its short description
+	register("hold", func(a []string) string {
+		bc, err := encodeAny(a, nil)
+		if err == nil && bc != nil {
+			heldMu.Lock()
+			held = append(held, bc)
+			heldMu.Unlock()
+		}
+		return shortDesc(describe(bc, err))
+	})
+	// recheck : short descriptions of all held barcodes, in order, joined by ';'
+	register("recheck", func(a []string) string {
+		heldMu.Lock()
+		defer heldMu.Unlock()
+		var out []string
+		for _, bc := range held {
+			out = append(out, shortDesc(describeBC(bc)))
+		}
+		return strings.Join(out, ";")
+	})
+	// rep <n> <encoder args...> : encode n times; SAME <short description> if all n results are
+	// identical, else DIFF <first> <other>
+	register("rep", func(a []string) string {
+		n := atoi(a[0])
+		first := ""
+		for i := 0; i < n; i++ {
+			bc, err := encodeAny(a[1:], nil)
+			d := shortDesc(describe(bc, err))
+			if i == 0 {
+				first = d
+			} else if d != first {
+				return "DIFF call#1=" + first + " call#" + itoa(i+1) + "=" + d
+			}
+		}
+		return "SAME " + first
+	})
 	// enc <encoder args...> : short description (accessors + md5 of the module pattern)
 	register("enc", func(a []string) string {
 		bc, err := encodeAny(a, nil)
